@@ -541,6 +541,11 @@ func c19JobsWire(p c19JobPlan, snaps []c19JobSnap) string {
 func c19RandomJobPlan(r *rand.Rand) c19JobPlan {
 	p := c19JobPlan{Max: 1 + r.Intn(3)}
 	names := []string{"", "renew_a", "renew_b", "renew_c"}
+	if r.Intn(3) == 0 {
+		// more names than workers: the queue holds several named jobs
+		names = append(names, "renew_d", "renew_e", "renew_f")
+		p.Max = 1 + r.Intn(4)
+	}
 	n := 5 + r.Intn(14)
 	for i := 0; i < n; i++ {
 		if r.Intn(100) < 58 {
@@ -550,6 +555,15 @@ func c19RandomJobPlan(r *rand.Rand) c19JobPlan {
 		}
 	}
 	return p
+}
+
+func nameOfJob(snaps []c19JobSnap, id int) string {
+	for _, s := range snaps {
+		if s.Tag == 0 && s.ID == id {
+			return s.Name
+		}
+	}
+	return ""
 }
 
 // ---------------------------------------------------------------- (c) CA selection
@@ -636,6 +650,39 @@ func runC19(tier string, seed int64, outdir string, replay string) error {
 			}
 			w.Hist(fmt.Sprintf("jobs: op=%s", []string{"submit", "finish-ok", "finish-err", "finish-panic"}[s.Tag*(1+s.Kind)]))
 		}
+		// a named submission that changed nothing: was the holder of the name queued or running?
+		for i, sn := range snaps {
+			if sn.Tag != 0 || sn.Name == "" || i == 0 {
+				continue
+			}
+			prev := snaps[i-1]
+			held := false
+			for _, n := range prev.Names {
+				held = held || n == sn.Name
+			}
+			if !held {
+				continue
+			}
+			inQueue := false
+			for _, n := range prev.Queue {
+				inQueue = inQueue || n == sn.Name
+			}
+			if inQueue {
+				w.Hist("jobs: duplicate_while_queued")
+			} else {
+				w.Hist("jobs: duplicate_while_running")
+			}
+		}
+		for i, sn := range snaps {
+			if sn.Tag == 1 && sn.Kind == 2 && i+1 < len(snaps) {
+				for _, later := range snaps[i+1:] {
+					if later.Tag == 0 && later.Name != "" && later.Name == nameOfJob(snaps, sn.ID) {
+						w.Hist("jobs: name_resubmitted_after_panic")
+						break
+					}
+				}
+			}
+		}
 		seen := map[string]int{}
 		for _, op := range p.Ops {
 			if op.Op == "submit" && op.Name != "" {
@@ -667,6 +714,31 @@ func runC19(tier string, seed int64, outdir string, replay string) error {
 				return err
 			}
 			c19E2E(w, []c19E2EPlan{p})
+		case k == "jobs-concurrent-submit":
+			var p c19BurstPlan
+			if err := json.Unmarshal(rc.In, &p); err != nil {
+				return err
+			}
+			// a failure here needs a race: up to 40 runs, emit the first one that looks wrong
+			// (a name accepted twice, or fewer/more starts than accepted jobs), else the last
+			for i := 0; i < 40; i++ {
+				o := c19RunBurst(p)
+				seen, bad := map[string]bool{}, false
+				acc := 0
+				for _, sb := range o.Order {
+					if sb.Accepted {
+						acc++
+						if sb.Name != "" && seen[sb.Name] {
+							bad = true
+						}
+						seen[sb.Name] = true
+					}
+				}
+				if bad || len(o.FinalStarted) != acc || len(o.Running)+len(o.Queue) != acc || i == 39 {
+					c19BurstEmit(w, p, o)
+					break
+				}
+			}
 		case k == "jobs":
 			var p c19JobPlan
 			if err := json.Unmarshal(rc.In, &p); err != nil {
@@ -813,6 +885,8 @@ func runC19(tier string, seed int64, outdir string, replay string) error {
 	for i := range plans {
 		emitJobs("random", plans[i], snaps[i])
 	}
+	// ---- (b') submissions from many goroutines at once
+	c19Burst(w, c19BurstPlans(tier, r))
 	// ---- (c) CA selection, and the test-CA logic end to end against two mock ACME CAs
 	c19CASelection(w)
 	c19E2E(w, c19E2EPlans(tier, r))
